@@ -121,15 +121,17 @@ class Monitor:
 
 
 class History:
-    def __init__(self, mon, rng, idx):
+    def __init__(self, mon, rng, idx, world=None, npool=None):
         from skepticoin.networking.disk_interface import DiskInterface
         from skepticoin.blockstore import BlockStore, DefaultBlockStore
         import skepticoin.blockstore as bs
         self.mon, self.rng = mon, rng
-        self.world = world = gen.World(rng)
-        world.bad_key_prob = 0.1
-        world.grow(rng.choice([6, 10, 16]), rng, tx_prob=0.7)
-        self.path = os.path.join(os.getcwd(), "node-%d.db" % idx)
+        if world is None:
+            world = gen.World(rng)
+            world.bad_key_prob = 0.1
+            world.grow(rng.choice([6, 10, 16]), rng, tx_prob=0.7)
+        self.world = world
+        self.path = os.path.join(os.getcwd(), "node-%s.db" % idx)
         if os.path.exists(self.path):
             os.remove(self.path)
         self.store = quiet(BlockStore, self.path)
@@ -161,7 +163,7 @@ class History:
         # pending transactions in the pool
         head = world.cs.current_chain_hash
         used = set()
-        for _ in range(rng.randint(0, 3)):
+        for _ in range(rng.randint(0, 3) if npool is None else npool):
             t = world.make_rtx(head, rng, exclude=used)
             if t is not None:
                 used.update(t.refs())
@@ -369,6 +371,69 @@ class History:
         os.remove(self.path)
 
 
+SMALL = ["valid-on-head", "valid-sibling-of-head", "valid-on-best-losing-tip", "invalid-in-state", "cannot-be-applied",
+         "duplicate-known", "re-deliver-rejected", "orphan"]
+
+
+def small_scope(mon, rng, length, shard, nshard):
+    """EVERY sequence of `length` deliveries from SMALL on a small base chain (exhaustive small scope)"""
+    import itertools
+    base = gen.World(rng)
+    base.grow(4, rng, tx_prob=0.8, bias="linear")
+    idx = 0
+    for seq in itertools.product(range(len(SMALL)), repeat=length):
+        idx += 1
+        if idx % nshard != shard:
+            continue
+        h = History(mon, rng, "ss", world=base.fork(), npool=1)
+        world = h.world
+        mon.c["small_scope_sequences"] = mon.c.get("small_scope_sequences", 0) + 1
+        for e in seq:
+            name = SMALL[e]
+            cs = world.cs
+            head = cs.current_chain_hash
+            try:
+                if name == "valid-on-head":
+                    built = cstream.c_valid_spend(world, head, rng) or c05.h_valid_ref_assembly(world, head, rng)
+                elif name == "valid-sibling-of-head":
+                    built = c05.h_valid_ref_assembly(world, world.chain.blocks[head].prev, rng)
+                elif name == "valid-on-best-losing-tip":
+                    losing = [t for t in cs.heads.keys() if t != head]
+                    pid = max(losing, key=lambda t: world.chain.blocks[t].height) if losing else world.chain.blocks[head].prev
+                    built = c05.h_valid_ref_assembly(world, pid, rng)
+                elif name == "invalid-in-state":
+                    built = cstream.v_reward_plus_one(world, head, rng)
+                elif name == "cannot-be-applied":
+                    built = cstream.c_missing_never_existed(world, head, rng)
+                elif name == "duplicate-known":
+                    bid = rng.choice(world.chain.order[1:])
+                    h.deliver(world.chain.blocks[bid], "duplicate", None, None)
+                    continue
+                elif name == "re-deliver-rejected":
+                    if not h.rejected_blocks:
+                        continue
+                    rb, cls0 = h.rejected_blocks[-1]
+                    h.deliver(rb, cls0 + "@re-delivered", None, None)
+                    continue
+                else:
+                    built = c05.h_unknown_parent(world, head, rng)
+            except Exception:
+                built = None
+            if built is None:
+                continue
+            rblk, must, may = built
+            if rblk.ts > world.now + 30:
+                h.net.clock.t = world.now = rblk.ts + 10
+            h.deliver(rblk, "small:" + name, must, may)
+            if getattr(h, "diverged", False):
+                break
+            if len(h.active_raws()) < 3:
+                h.add_peer()
+        h.ro.close()
+        h.store.close()
+        os.remove(h.path)
+
+
 def run_shard(spec):
     env.boot()
     mon = Monitor()
@@ -384,6 +449,7 @@ def run_shard(spec):
             h.run(rng.choice([30, 50, 80]) if quick else rng.choice([30, 80, 200]), classes)
             if len(mon.samples) < 1:
                 mon.samples.append({"deliveries": [d["class"] for d in h.log][:40]})
+        small_scope(mon, rng, 3 if quick else 5, spec["shard"], NSHARD)
     return {"evaluations": mon.c["deliveries"], "digests": sorted(mon.digests), "violations": mon.viol, "counters": mon.c,
             "samples": mon.samples}
 
